@@ -1,15 +1,18 @@
 import PlasVerif.Proofs.Urls
+import PlasVerif.Proofs.UrlsNav
+import PlasVerif.Proofs.UrlsRender
+import PlasVerif.Proofs.UrlsToc
 /-!
 # C14 — every internal link in the rendered output lands on an existing target
 
-Property theorems only; helper lemmas are in `Proofs/Urls.lean`.  The model (`Model/Urls.lean`) mirrors
+Property theorems only; helper lemmas are in `Proofs/Urls.lean`, `Proofs/UrlsNav.lean`, `Proofs/UrlsToc.lean`, `Proofs/UrlsRender.lean`.  The model (`Model/Urls.lean`) mirrors
 `Macro.id`/`idgen`, `Renderer.cacheFilenames`, `Renderable.filename`/`url`/`__str__`,
 `SectionUtils.tableofcontents`/`links`, the `TableOfContents` proxy and `Context.label`.
 `prepare split t g` is the tree after `cacheFilenames` and after every template has read its `obj.id`;
 `render` is the set of files written with the identifiers emitted into each.
 -/
 namespace PlasVerif.Properties.C14
-open PlasVerif.Model.Urls PlasVerif.Spec.Links PlasVerif.Proofs.Urls
+open PlasVerif.Model.Urls PlasVerif.Spec.Links PlasVerif.Proofs.Urls PlasVerif.Proofs.UrlsNav PlasVerif.Proofs.UrlsRender PlasVerif.Proofs.UrlsToc
 
 /-- a small document used for the non-vacuity examples: document{ section[s1]{ par{ equation[e1] } subsection } section } -/
 def sample : Tree :=
@@ -106,20 +109,59 @@ theorem toc_links_land (root : Tree) (f : Nat) (hf : root.file = some f) (depth 
         rw [e] at this
         exact this
 
-/-- Full statement of the reachability clause: with a table of contents (toc-depth ≥ 1), every produced
-    file is the start page or reachable from it through toc links and `next` links. -/
-def toc_reaches_every_file_statement : Prop :=
-  ∀ (root : Tree) (depth : Int) (nonFiles : Bool), tocOK root = true → hasFile root = true → 1 ≤ depth →
-    ∀ f ∈ filesOf root, root.file = some f ∨
-      (∃ u ∈ tocLinks depth nonFiles [] root, u.file = some f) ∨
-      (∃ p ∈ fileSections root, ∃ u, nextOf ((p.1.file).getD 0) (fileSections root) false = some u ∧ u.file = some f)
+/-- **With a table of contents every produced file is reachable from the start page** — full strength, any
+    toc-depth, toc-non-files on or off.  `step a b` = page `a` carries a hyperlink to page `b`: an entry of the
+    document's table of contents (the layouts print it on every page) or the `next` link of `SectionUtils.links`.
+    Every file of the tree is reachable from the root's file.  (The proof goes along the chain of `next` links, so
+    it does not even need toc-depth ≥ 1; with a depth-limited toc the deeper files are exactly the ones reached
+    that way.)  Hypotheses, both decidable and evaluated by the driver on every well-formed case: `tocOK` —
+    file-producing sections hang on file-producing sections; `(filesOf root).Nodup` — a file-producing node is
+    identified by its file (`item is self` in the loop of `links`); for `prepare`d trees it is
+    `prepared_files_distinct` below, for real names it is C15. -/
+theorem toc_reaches_every_file (root : Tree) (f0 : Nat) (hf0 : root.file = some f0)
+    (hok : tocOK root = true) (hn : (filesOf root).Nodup) (depth : Int) (nonFiles : Bool) :
+    ∀ f ∈ filesOf root,
+      Reachable f0 (fun a b => (∃ u ∈ tocLinks depth nonFiles [] root, u.file = some b) ∨
+                               (∃ u, nextOf a (fileSections root) false = some u ∧ u.file = some b)) f := by
+  intro f hf
+  obtain ⟨p, hp, hpf⟩ := allSections_complete [] root hok f hf
+  have hps : p ∈ fileSections root := by
+    unfold fileSections
+    exact List.mem_filter.mpr ⟨hp, by simp [hasFile, hpf]⟩
+  exact next_chain_reaches root f0 hf0 hn _ (fun a b h => .inr ⟨_, h, rfl⟩) p hps f hpf
 
-/-- **With toc-depth at least the nesting depth, the table of contents links every produced file.**
-    Partial: the depth-limited case (files deeper than toc-depth are reached through the chain of `next`
-    links of `SectionUtils.links`) is not proved here; it is carried by the correspondence streams
-    (`url`: closure over T and N links; `doc14`: reachability in the real output).
-    `tocOK`: file-producing sections hang on file-producing sections (evaluated by the driver on every case). -/
-theorem toc_reaches_every_file_partial (root : Tree) (depth : Int) (nonFiles : Bool)
+/-- the file ranks handed out by `cacheFilenames` are pairwise distinct (the hypothesis of the theorem above) -/
+theorem prepared_files_distinct (split : Int) (t : Tree) (g : Nat) (h0 : filesOf t = []) :
+    (filesOf (prepare split t g)).Nodup := prepare_files_nodup split t g h0
+
+/-- the other hypothesis: after `cacheFilenames`, file-producing sections hang on file-producing sections, for
+    every document whose levels nest (no node has a lower level than its parent) and every split level below
+    `ENDSECTIONS_LEVEL` -/
+theorem prepared_tocOK (split : Int) (hs : split < endSections) (t : Tree) (g : Nat)
+    (hn : nests t = true) (h0 : filesOf t = []) : tocOK (prepare split t g) = true :=
+  prepare_tocOK split hs t g hn h0
+
+/-- **Reachability, stated on the input document only**: for every document tree whose levels nest and whose
+    root is at or above the split level (the `document` node always is), at every split level below
+    `ENDSECTIONS_LEVEL`, every toc-depth and toc-non-files setting and any state of `idgen`: every produced file
+    is reachable from the start page (file 0) through table-of-contents and `next` links. -/
+theorem toc_reaches_every_file_of_document (split : Int) (hs : split < endSections) (t : Tree) (g : Nat)
+    (hroot : t.level ≤ split) (hn : nests t = true) (h0 : filesOf t = []) (depth : Int) (nonFiles : Bool) :
+    ∀ f ∈ filesOf (prepare split t g),
+      Reachable 0 (fun a b => (∃ u ∈ tocLinks depth nonFiles [] (prepare split t g), u.file = some b) ∨
+                              (∃ u, nextOf a (fileSections (prepare split t g)) false = some u ∧ u.file = some b)) f :=
+  toc_reaches_every_file (prepare split t g) 0 (prepare_root_file split t g hroot)
+    (prepare_tocOK split hs t g hn h0) (prepare_files_nodup split t g h0) depth nonFiles
+
+example : nests sample = true ∧ sample.level ≤ 1 ∧ filesOf (prepare 1 sample 0) = [0, 1, 2] := by decide
+
+example : tocOK (prepare 1 sample 0) = true ∧ (prepare 1 sample 0).file = some 0 ∧ filesOf sample = [] ∧
+    nextOf 0 (fileSections (prepare 1 sample 0)) false = some ⟨some 1, none⟩ ∧
+    nextOf 1 (fileSections (prepare 1 sample 0)) false = some ⟨some 2, none⟩ := by decide
+
+/-- **With toc-depth at least the nesting depth, the table of contents alone links every produced file**
+    (no `next` link needed). -/
+theorem toc_alone_reaches_every_file (root : Tree) (depth : Int) (nonFiles : Bool)
     (hok : tocOK root = true) (hh : (heightL root.kids : Int) ≤ depth) :
     ∀ f ∈ filesOfList root.kids, ∃ u ∈ tocLinks depth nonFiles [] root, u.file = some f := by
   intro f hm
@@ -136,5 +178,58 @@ theorem toc_reaches_every_file_partial (root : Tree) (depth : Int) (nonFiles : B
 
 example : tocOK (prepare 1 sample 0) = true ∧ heightL (prepare 1 sample 0).kids ≤ 3 ∧
     (tocLinks 3 false [] (prepare 1 sample 0)).map (·.file) = [some 1, some 2] := by decide
+
+/-- **`next` and `prev` links land**: whatever `SectionUtils.links` computes as `next` / `prev` of any file `f`
+    is the URL of a node of the tree, hence names a produced file (and has no dangling fragment). -/
+theorem nav_links_land (root : Tree) (f0 : Nat) (hf0 : root.file = some f0) (f : Nat) (u : Url)
+    (h : nextOf f (fileSections root) false = some u ∨ prevOf f (fileSections root) none = some u) :
+    Lands (render root).2 (toLink u) := by
+  have key : ∃ p ∈ fileSections root, p.2 = u := by
+    rcases h with h | h
+    · exact nextOf_mem f _ _ u h
+    · rcases prevOf_mem f _ _ u h with e | e
+      · simp at e
+      · exact e
+  obtain ⟨p, hp, e⟩ := key
+  have hp' := allSections_sub [] root p (mem_fileSections hp).1
+  rw [← e]
+  exact land_root root f0 hf0 p hp'
+
+/-- **`next` and `prev` are each other's inverse on neighbouring file sections**: if `p`, `q` are consecutive in
+    `sections` (document order of the file-producing sections), the page of `p` links forward to the page of `q`
+    and the page of `q` links back to the page of `p`. -/
+theorem next_prev_neighbours (root : Tree) (hn : (filesOf root).Nodup) (pre : List (Tree × Url)) (p q : Tree × Url)
+    (post : List (Tree × Url)) (hS : fileSections root = pre ++ p :: q :: post) :
+    ∃ fp fq, p.1.file = some fp ∧ q.1.file = some fq ∧
+      nextOf fp (fileSections root) false = some ⟨some fq, none⟩ ∧
+      prevOf fq (fileSections root) none = some ⟨some fp, none⟩ :=
+  next_links_neighbour root hn pre p q post hS
+
+example : prevOf 2 (fileSections (prepare 1 sample 0)) none = some ⟨some 1, none⟩ ∧
+    prevOf 0 (fileSections (prepare 1 sample 0)) none = none := by decide
+
+/-- **C14 ↔ C13 (owner rule)**: embed the tree into C13's model of `Renderable.__str__`
+    (`Model/Render.lean`, with layouts and footnote collection; `toRender tag fname`, no footnote nodes).  For a
+    root that creates a file, the file named by the URL of *any* node `n` is a file C13's render writes, and the
+    token list of that file contains the opening of `n`'s own template (`Tok.op (tag n)`): `Renderable.url`'s walk
+    up the parents and C13's bubbling-up of rendered strings agree on the owner of every node. -/
+theorem url_file_is_c13_owner (tag : Tree → Nat) (fname : Nat → String) (root : Tree) (f0 : Nat)
+    (hf0 : root.file = some f0) :
+    ∀ p ∈ urls [] root, ∃ f toks, p.2.file = some f ∧
+      (fname f, toks) ∈ (PlasVerif.Model.Render.child (toRender tag fname root)).2 ∧
+      PlasVerif.Model.Render.Tok.op (tag p.1) ∈ toks := by
+  intro p hp
+  rcases owner_tree tag fname [] root p hp with ⟨a, b⟩ | h
+  · -- a root with a file passes nothing upwards
+    cases root with
+    | node lv id num file kids =>
+      simp only [Tree.file] at hf0
+      subst hf0
+      rw [child_node_some] at b
+      simp at b
+  · exact h
+
+example : (PlasVerif.Model.Render.child (toRender (fun t => t.level.toNat) (fun k => s!"f{k}") (prepare 1 sample 0))).2.map (·.1)
+    = ["f1", "f2", "f0"] := by decide
 
 end PlasVerif.Properties.C14
